@@ -207,9 +207,9 @@ def build(ctx):
                     k += 1
                     cname, vals = classes[k % len(classes)]
                     cases.append((gs, fs, ps, vals, (n <= 2 and (ctx.quick is False or k % 2 == 0)) or (n > 2 and k % 8 == 0)))
-    # deep structure: ALL gate/mode sequences of 4-5 (thorough 6) operations over 2 modes and 4 gate kinds (and, thorough, 5 operations
+    # deep structure: ALL gate/mode sequences of 4-5 (thorough 6) operations over 2 modes and 5 gate kinds (and, thorough, 5 operations
     # over 3 modes and 6 kinds); one parameter, constants elsewhere - what varies is the shape of the dependency graph
-    two = [("R", [0]), ("R", [1]), ("BS", [0, 1]), ("S", [0])]
+    two = [("R", [0]), ("R", [1]), ("BS", [0, 1]), ("S", [0]), ("D", [1])]     # gate names on either side of the repeated name, one per mode
     three = two + [("BS", [1, 2]), ("R", [2])]
     fams = [(two, 4), (two, 5)] if ctx.quick else [(two, 4), (two, 5), (two, 6), (three, 5)]
     for gset, n in fams:
@@ -222,7 +222,19 @@ def build(ctx):
     for (cname, vals), fs in itertools.product(classes, itertools.product(FORMS[:8], repeat=2)):
         cases.append((((("G", [0]), ("H", [1]))), fs, ("a", "a"), vals, False))
         cases.append((((("G", [0]), ("K", [0, 1]))), fs, ("a", "a"), vals[::-1], False))
+    # parameter names: names that mean something to SymPy or to the host language, and look-alikes of other tokens
+    # (all plain NAME tokens of the grammar); each with every affine form, alone, repeated and next to the following name
+    for i, nm in enumerate(HOST_NAMES):
+        nxt = HOST_NAMES[(i + 1) % len(HOST_NAMES)]
+        for f in FORMS[:8]:
+            for g in ("{P}", "2*{P}-1"):
+                vals = classes[(i + len(f)) % len(classes)][1]
+                cases.append(((("G", [0]), ("H", [1])), (f, g), (nm, nxt), vals, False))
+                cases.append(((("G", [0]), ("K", [0, 1])), (g, f), (nm, nm), vals[::-1], f == "{P}"))
     return cases
+
+
+HOST_NAMES = ["lambda", "beta", "gamma", "zeta", "E", "I", "S", "N", "Q", "re", "im", "erf", "oo", "None", "is", "O", "C", "x1", "a_1", "q1a", "pix", "sqrt2", "p0"]
 
 
 def run(ctx):
@@ -240,8 +252,8 @@ def run(ctx):
             Vs.add(k, {"case": repr(c)}, d)
     cov = {"evaluations": matches, "distinct_nontrivial": len(cases),
            "rule": "templates = gate/mode sequence (1-3, thorough 4 operations over modes {0,1,2}, gate names partly repeated) x argument form per operation (8 affine single-parameter forms + a constant) x parameter per operation from {a,b}; "
-                   "value class rotated over {dyadic, integer, generic, generic2, large} per template, all classes on the templates that repeat a parameter; for each: every linear extension of the dependency order, and every single structural edit. "
-                   "evaluations = match_template calls; non-trivial = template x assignment with >=1 parameter; distinct by construction",
+                   "%d parameter names that mean something to SymPy / Python or look like other tokens x every form; value class rotated over {dyadic, integer, generic, generic2, large} per template, all classes on the templates that repeat a parameter; for each: every linear extension of the dependency order, and every single structural edit. "
+                   "evaluations = match_template calls; non-trivial = template x assignment with >=1 parameter; distinct by construction" % len(HOST_NAMES),
            "samples": [body(c[0], c[1], c[2]) for c in common.sample(cases, 5)], "exhaustive": True, "templates": len(cases)}
     return {"coverage": cov, "violations": Vs.records(),
             "assumptions": ["an edited program is expected to be refused only if a brute-force search finds no label- and order-preserving bijection (otherwise it is still an instance)", "arguments compared to 1e-9 relative"]}
